@@ -123,6 +123,21 @@ func drawStructuralCall(t *rapid.T, e *Env, p *Prog, sfx string, kinds []string,
 	typ := e.DrawType(t, rapid.IntRange(0, 3).Draw(t, "depth"))
 	ts := func(x *Type) string { return render(x) }
 	dc := &DrawnCall{Kind: kind, Type: typ}
+	if (kind == "equal" || kind == "hash") && len(e.KeyStructs) > 0 && rapid.IntRange(0, 7).Draw(t, "unnamedstruct") == 0 {
+		// an unnamed ==-comparable struct type as the argument: plain fields, a tag, embedded structs (by value and
+		// of an imported package)
+		ks := e.KeyStructs[0]
+		fields := []Field{{Name: "A", Type: B("int")}, {Name: ks.Name, Type: NamedT(ks), Embedded: true}, {Name: "B", Type: B("string")}}
+		text := "struct {\n\tA int `json:\"a,omitempty\" fmt:\"%d\"`\n\t" + ks.Name + "\n\tB string\n"
+		if len(e.ExtKeys) > 0 {
+			xk := e.ExtKeys[0]
+			fields = append(fields, Field{Name: xk.Name, Type: NamedT(xk), Embedded: true})
+			text += "\t" + render(NamedT(xk)) + "\n"
+		}
+		text += "}"
+		typ = &Type{Kind: UStruct, Fields: fields, Text: text}
+		dc.Type = typ
+	}
 	switch kind {
 	case "equal":
 		dc.Call = Equal(ts(typ), sfx)
